@@ -51,6 +51,10 @@ func ZZ_C09_Cancel(sv *zzsv.T) {
 		pollsAtCall = append(pollsAtCall, ctx.Polls)
 		return &object.Void{}
 	})
+	if sv.Choice("prepared_before", 2) == 1 {
+		// prepared once without a context, then given one and prepared again
+		sv.Assume(e.Prepare() == nil)
+	}
 	e.SetContext(ctx)
 	sv.Assume(e.Prepare() == nil)
 	// from here on the run has to end: the context is done at poll K at the latest
@@ -163,6 +167,13 @@ func ZZ_C09_AlreadyExpired(sv *zzsv.T) {
 	// (the context is the harness's model of one: done from the very first
 	// look at it; the standard library's cancelCtx is not modelled)
 	ctx := sv.Ctx("cancel_at_poll", 0)
+	// the evaluator may have been prepared (and used) before it is given the
+	// context and prepared again
+	if sv.Choice("prepared_before", 2) == 1 {
+		sv.Assume(e.Prepare() == nil)
+		_, _ = e.Execute(nil)
+		calls = 0
+	}
 	e.SetContext(ctx)
 	sv.Assume(e.Prepare() == nil)
 	for run := 0; run < 2; run++ {
